@@ -44,14 +44,15 @@ def place : Expr → Place
     | .ptr m _ => (place e).hop m
     | _ => place e
   | .index e =>
-    match tyOf e with
-    | .ptr m _ => (place e).hop m      -- `p[i]` with `p : ^[n]T`
-    | _ => place e                     -- an element of the array stored at `place e`
+    -- `p[i]` with `p : ^[n]T` (or `^mut ^[n]T`, ...: one hop per pointer level); without a
+    -- pointer, an element of the array stored at `place e`
+    (tyOf e).levels.foldl Place.hop (place e)
   | .member prev _ =>
     match tyOf prev with
     | .file => ⟨.global, []⟩           -- `module.name`
-    | .ptr m _ => (place prev).hop m   -- `p.field` with `p : ^S`
-    | _ => place prev                  -- a field of the struct stored at `place prev`
+    -- `p.field` with `p : ^S` (one hop per pointer level); without a pointer, a field of the
+    -- struct stored at `place prev`
+    | t => t.levels.foldl Place.hop (place prev)
   | .paren e => place e
   | .unwrap e => place e               -- the payload of the optional stored at `place e`
   -- values, not places
